@@ -213,9 +213,19 @@ def explore(chk):
                     elif nl is not None:
                         # a node-level layout is carried by a styled span around the text
                         nodes.append(["S", True, {"italics": True}, nl]); nodes.append(["T", word, nl]); nodes.append(["S", False, {"italics": True}, nl])
+                    elif rng.random() < 0.3:
+                        # a styled span without a layout of its own: its text is positioned like the rest of the caption
+                        nodes.append(["S", True, {"italics": True}]); nodes.append(["T", word]); nodes.append(["S", False, {"italics": True}])
                     else:
                         nodes.append(["T", word])
                 caps.append({"start": (2 * k + 1) * 1000000, "end": (2 * k + 2) * 1000000, "nodes": nodes, "layout": cap_l})
+            if li == 0 and rng.random() < 0.12:
+                # two captions whose layouts differ only beyond the second decimal: different values, so different regions
+                twin = {"origin": ["33.333333%", "20%"], "extent": ["40%", "20%"], "align": ["right", "top"]}
+                near = {"origin": ["33.33%", "20%"], "extent": ["40%", "20%"], "align": ["right", "top"]}
+                caps = [{"start": 1000000, "end": 2000000, "nodes": [["T", "wa"]], "layout": twin},
+                        {"start": 3000000, "end": 4000000, "nodes": [["T", "wb"]], "layout": near}] + \
+                       [dict(c_, start=c_["start"] + 4000000, end=c_["end"] + 4000000) for c_ in caps]
             langs_desc.append({"lang": LANGS[li], "layout": lang_l, "caps": caps})
         desc = {"langs": langs_desc}
         cs = setbuild.build(desc)
